@@ -319,6 +319,7 @@ def run(ctx, F, rule="E-RAW"):
                "reserve (%s) must compare the free-slot counter with the required spare and call reserve_rehash" % F.where(fid))
     check_slot_clone(ctx, F)
     check_remove_successor(ctx, F)
+    check_remove_wraps(ctx, F)
     check_probe_exits(ctx, F)
 
 
@@ -464,3 +465,54 @@ def check_probe_exits(ctx, F, rule="E-RAW.probe"):
                                 "tombstone): an element stored behind a tombstone is not found and gets inserted a second time"))
     ctx.floor(rule, "probe functions", n, 2)
     return n
+
+
+def check_remove_wraps(ctx, F, rule="E-RAW.succ.wrap"):
+    """The successor whose status `remove_at_slot_unchecked` tests is the *cyclic* successor: probing wraps around at
+    the end of the slot array, so the slot after the last one is slot 0.  From MIR: the status compared with S::FREE is
+    loaded from a slot (`get_unchecked` / an index projection) whose index derives from a `& (len - 1)` mask (or a
+    `%`), and not from a default value substituted when `slot + 1` is out of bounds."""
+    from efreelist import origins
+    fids = [f for f in F.mir if f.startswith("linear_hashtbl::raw::") and f.endswith("::remove_at_slot_unchecked")]
+    if not ctx.anchor(rule, "RawTable::remove_at_slot_unchecked", len(fids) == 1):
+        return 0
+    fid = fids[0]
+    m = F.mir[fid]
+    B = cfg.Body(m)
+    # every local assigned from a BitAnd / Rem (the wrap) and everything derived from it
+    wrapped = set()
+    changed = True
+    while changed:
+        changed = False
+        for i in sorted(B.reach):
+            for s in m["blocks"][i]["s"]:
+                rv = s.get("rv") or {}
+                l = s.get("lhs")
+                if not isinstance(l, int) or l in wrapped:
+                    continue
+                if rv.get("k") in ("bin", "checked") and str(rv.get("o", "")).startswith(("BitAnd", "Rem")):
+                    wrapped.add(l)
+                    changed = True
+                elif rv.get("k") in ("use", "cast") and cfg.op_place(rv.get("op")) is not None:
+                    p = cfg.op_place(rv["op"])
+                    pl = p if isinstance(p, int) else p.get("l")
+                    if pl in wrapped:
+                        wrapped.add(l)
+                        changed = True
+    loads = []
+    for i, t in B.calls():
+        cn = cfg.callee_name(t) or ""
+        if re.search(r"::get_unchecked$|::get_unchecked_mut$|Index.*::index$", cn) and len(t.get("a") or []) >= 2:
+            p = cfg.op_place(t["a"][1])
+            pl = p if isinstance(p, int) else (p or {}).get("l")
+            loads.append((i, cn.rsplit("::", 1)[-1], pl in wrapped))
+    defaults = [i for i, t in B.calls() if re.search(r"Option::<T>::(map_or|unwrap_or|map_or_else|unwrap_or_else|unwrap_or_default)$",
+                                                   cfg.callee_name(t) or "")]
+    ok = any(w for _, _, w in loads) and not defaults
+    ctx.ob(rule, rule + ":remove_at_slot_unchecked", ok,
+           "%s (%s): %s" % (F.nice(fid), F.where(fid),
+                            "the successor slot is addressed modulo the table size" if ok else
+                            "the successor's status is not read from the slot at (slot + 1) wrapped around the table size%s: the "
+                            "entry in the last slot is always freed, cutting a probe chain that continues at slot 0"
+                            % (" (a default is substituted when slot + 1 is out of bounds)" if defaults else "")))
+    return 1
